@@ -93,8 +93,17 @@ TRANSLATION TABLE (Python → Lean)
                                         if it raises): let (state…) := m {self with current state} {obj with current attrs} args   (an
                                         error is propagated with the tables m left); a callee with another self record gets it rebuilt from
                                         the equally named fields; `super().m` inside `m` = the `m` translated before (resolution order)
+  self.attr is None / is not None      self.attr.isNone / self.attr.isSome      (an attribute of Option type, in a test position)
+  registry effect_self `obj.meth()`     let effects_ := effects_ ++ [obj]         (a callback: the receiver is what is recorded)
+  try: x = self.o.m() / except IndexError: H / [else: E]; rest      (registry obj_calls: `m` translated before, can raise, has state)
+                                        match m { receiver built from the state locals } fuel with
+                                        | (.ok x, state') => E; rest | (.error Py.Err.Index, state') => H; rest
+                                        | (.error err_, state') => (.error err_, …)   (any other error propagates, state kept)
+  registry callback `ev.execute()`      match exec_ (state…, world_) ev with | (.ok _, (state…, world_)) => rest
+                                        | (.error err_, (state…, world_)) => (.error err_, state…, world_)    exec_, ω, world_: parameters
+  registry state_calls `self.m(x)`      let state := m' { receiver built from the state locals } x     (m' translated before, state only)
 NOT in the subset: floats, strings (except in `raise`), dict values, sets, slices, list indexing, nested defs, lambda,
-try/with, while without fuel, *args/**kwargs, walrus, global state, division by 0.
+any other try, with, while without fuel, *args/**kwargs, walrus, global state, division by 0.
 """
 from __future__ import annotations
 
@@ -161,6 +170,19 @@ class Fn:
     ret: tuple | str | None = None  # declared result type of a function whose `return None` / `return []` has no inferable type
     ident: dict = field(default_factory=dict)     # parameter -> field: an object stored / compared by identity is named by that field
     may_raise: bool = False        # the function raises without a `raise` statement (unpacking None, list.remove of a missing item)
+    effect_self: tuple = ()        # effects `obj.meth()` without arguments whose recorded value is the receiver `obj` (a callback)
+    obj_calls: dict = field(default_factory=dict)   # "self.event_list.pop_event" -> (python name of the translated method, record of
+    #                                               the receiver, state attrs of THIS function holding the receiver's state attrs):
+    #                                               only as `try: x = <call>() / except IndexError: .. [else: ..]` (s_Try);
+    #                                               optional 4th item: the fuel handed to the callee, `{0}` = its first state local
+    #                                               (the callee's own termination measure, e.g. "({0}.length + 1)"), default `fuel`
+    callback: dict = field(default_factory=dict)    # "event.execute" -> name of a FUNCTION PARAMETER of the definition: the call
+    #                                               `<local>.execute()` re-enters the state: `exec_ (state attrs…, world_) event` returns
+    #                                               (ok-or-error, (state attrs…, world_)); `world_ : ω` is everything else the callback
+    #                                               touches (an explicit type parameter `ω`), threaded and returned last
+    callback_recv_ty: tuple = ()   # type of the callback's receiver, e.g. ("R", "SimEvent")
+    state_calls: dict = field(default_factory=dict)  # "self._schedule_event" -> (translated method, record, state attrs): the call
+    #                                               statement `self._schedule_event(x)` is `attrs := method {record from attrs} x`
 
 
 EXTERN = {}     # record name -> Lean name of extern records (filled by generate_group)
@@ -561,6 +583,17 @@ class Translator:
                             out.append(d)
                 elif isinstance(s, (ast.AugAssign, ast.AnnAssign)):
                     tgt(s.target)
+                elif isinstance(s, ast.Expr) and isinstance(s.value, ast.Call) and self.effect_self_key(s.value):
+                    if OUT not in out:
+                        out.append(OUT)         # a callback effect, whatever the receiver's local is called
+                elif isinstance(s, ast.Expr) and isinstance(s.value, ast.Call) and self.callback_key(s.value):
+                    for d in [*self.fn.state, "world_"]:
+                        if d not in out:
+                            out.append(d)       # a callback may change every state attribute and the world
+                elif isinstance(s, ast.Expr) and isinstance(s.value, ast.Call) and _dotted(s.value.func) in self.fn.state_calls:
+                    for d in self.fn.state_calls[_dotted(s.value.func)][2]:
+                        if d not in out:
+                            out.append(d)
                 elif isinstance(s, ast.Expr) and isinstance(s.value, ast.Call) and isinstance(s.value.func, ast.Attribute):
                     d = OUT if (_dotted(s.value.func) in self.fn.effects or _dotted(s.value.func) in self.fn.snapshot) \
                         else _dotted(s.value.func.value)
@@ -575,6 +608,16 @@ class Translator:
                     walk(s.body), walk(s.orelse)
                 elif isinstance(s, (ast.For, ast.While)):
                     walk(s.body)
+                elif isinstance(s, ast.Try):        # s_Try: the receiver's state is rebound, every branch may assign
+                    for st in s.body:
+                        if isinstance(st, ast.Assign) and isinstance(st.value, ast.Call) and _dotted(st.value.func) in self.fn.obj_calls:
+                            for d in self.fn.obj_calls[_dotted(st.value.func)][2]:
+                                if d not in out:
+                                    out.append(d)
+                    walk(s.body)
+                    for h in s.handlers:
+                        walk(h.body)
+                    walk(s.orelse)
         walk(stmts)
         return out
 
@@ -586,6 +629,8 @@ class Translator:
             if isinstance(s, ast.If) and (Translator.escapes(s.body, loop) or Translator.escapes(s.orelse, loop)):
                 return True
             if isinstance(s, (ast.For, ast.While)) and Translator.escapes(s.body, True):
+                return True
+            if isinstance(s, ast.Try):          # s_Try ends in a match whose last arm leaves the function (the error propagates)
                 return True
         return False
 
@@ -905,6 +950,8 @@ class Translator:
             return self.s_For(s, env, k)
         if isinstance(s, ast.While):
             return self.s_While(s, env, k)
+        if isinstance(s, ast.Try):
+            return self.s_Try(s, env, k)
         if isinstance(s, ast.Break):
             if not self.breaks or self.breaks[-1] is None:
                 self.bad(s, "break outside a while loop")
@@ -1037,6 +1084,29 @@ class Translator:
             if c.args or c.keywords or self.fn.effects.get(f) != "Int":
                 self.bad(c, f"tagged effect call `{f}` must have no arguments (and the effect type Int)")
             return self.let(OUT, f"{OUT} ++ [{int(self.fn.effect_tags[f])}]") + k(env)
+        if self.callback_key(c):
+            par = self.fn.callback[self.callback_key(c)]
+            tup = "(" + ", ".join(self.v(o) for o in self.outs if o != OUT) + ")"
+            t, ty = self.expr(c.func.value, env)
+            if ty != self.callback_recv:
+                self.bad(c, f"callback `{f}` on a receiver of type {ty}")
+            err = self.wrap_ret(None, error="Fuel").replace(".error Py.Err.Fuel", ".error err_", 1)
+            return [f"match {par} {tup} {t} with", f"| (.ok _, {tup}) => ("] + _ind(k(env)) + [")", f"| (.error err_, {tup}) => {err}"]
+        if f in self.fn.state_calls:
+            meth, rec, attrs = self.fn.state_calls[f]
+            gfn, rty = self.group.get(meth, (None, None))
+            if gfn is None or c.keywords or len(c.args) != len(gfn.params) or list(self.recs[rec].fields) != \
+                    [a.split(".", 1)[1] for a in gfn.state] or len(attrs) != 1 or rty != env.get(attrs[0]):
+                self.bad(c, f"state call `{f}`: `{meth}` is not a translated method with exactly the state {attrs}")
+            recv = "{ " + ", ".join(f"{fl} := {self.v(a)}" for fl, a in zip(self.recs[rec].fields, attrs)) + " }"
+            return self.let(self.v(attrs[0]), " ".join([gfn.name, recv] + [self.expr(a, env)[0] for a in c.args])) + k(env)
+        if self.effect_self_key(c):
+            key = self.effect_self_key(c)
+            t, ty = self.expr(c.func.value, env)
+            ety = self.fn.effects[key]
+            if ty != (ety[1] if ety[0] == "T" and len(ety) == 2 else ety):
+                self.bad(c, f"callback effect `{f}` on a receiver of type {ty}")
+            return self.let(OUT, f"{OUT} ++ [{t}]") + k(env)
         if f in self.fn.effects:
             args = list(c.args)
             names = self.fn.effect_params.get(f)
@@ -1163,6 +1233,55 @@ class Translator:
             rest = k(dict(env))
             self.aux[idx] = head + [f"    if {c} then ("] + _ind(body, 6) + ["    ) else ("] + _ind(rest, 6) + ["    )"]
         return again(env)
+
+    def effect_self_key(self, c):
+        """the registry key of a callback effect `<local>.meth()` (no arguments; the local may have any name), or None"""
+        if isinstance(c.func, ast.Attribute) and isinstance(c.func.value, ast.Name) and not c.args and not c.keywords:
+            for key in self.fn.effect_self:
+                if key in self.fn.effects and key.split(".")[-1] == c.func.attr and key.count(".") == 1:
+                    return key
+        return None
+
+    def callback_key(self, c):
+        """the registry key of a callback `<local>.meth()` (no arguments; the local may have any name), or None"""
+        if isinstance(c.func, ast.Attribute) and isinstance(c.func.value, ast.Name) and not c.args and not c.keywords:
+            for key in self.fn.callback:
+                if key.split(".")[-1] == c.func.attr and key.count(".") == 1:
+                    return key
+        return None
+
+    def s_Try(self, s, env, k):
+        """`try: x = self.o.m() / except IndexError: H / [else: E]; rest` with `self.o.m` in the registry's obj_calls: a match on
+           the result of the translated `m` (value-or-error, state of the receiver): `.ok x` → E; rest, `.error Index` → H; rest,
+           any other error (only `Fuel` can occur) propagates.  The receiver's state is rebound in every branch."""
+        h = s.handlers[0] if len(s.handlers) == 1 else None
+        st = s.body[0] if len(s.body) == 1 else None
+        if s.finalbody or h is None or h.name is not None or _dotted(h.type) != "IndexError":
+            self.bad(s, "try statement other than `try: .. except IndexError: .. [else: ..]`")
+        if not (isinstance(st, ast.Assign) and len(st.targets) == 1 and isinstance(st.targets[0], ast.Name)
+                and isinstance(st.value, ast.Call) and not st.value.args and not st.value.keywords
+                and _dotted(st.value.func) in self.fn.obj_calls):
+            self.bad(s, "try body other than one assignment `x = <registry obj_call>()`")
+        meth, rec, attrs, *fuel_expr = self.fn.obj_calls[_dotted(st.value.func)]
+        if meth not in self.group:
+            self.bad(s, f"`{meth}` is not translated before this function")
+        gfn, rty = self.group[meth]
+        if not (rty and rty[0] == "T" and rty[1][0] == "E" and list(gfn.state) and len(rty) - 2 == len(attrs) == len(gfn.state)
+                and all(a in env for a in attrs)):
+            self.bad(s, f"`{meth}` does not have the shape (value-or-error, state…) expected of an obj_call")
+        if list(self.recs[rec].fields) != [a.split(".", 1)[1] for a in gfn.state]:
+            self.bad(s, f"record {rec} is not exactly the state of `{meth}`")
+        recv = "{ " + ", ".join(f"{f} := {self.v(a)}" for f, a in zip(self.recs[rec].fields, attrs)) + " }"
+        call = " ".join([gfn.name, recv] + ([fuel_expr[0].format(self.v(attrs[0])) if fuel_expr else "fuel"] if gfn.fuel else []))
+        if gfn.fuel and not self.fn.fuel and not fuel_expr:
+            self.bad(s, f"`{meth}` needs fuel, the registry gives this function none")
+        sts = ", ".join(self.v(a) for a in attrs)
+        x = st.targets[0].id
+        ok_env = dict(env, **{x: rty[1][1]})
+        ok_b = self.block(s.orelse, ok_env, k)
+        ix_b = self.block(h.body, dict(env), k)
+        return [f"match {call} with", f"| (.ok {self.v(x)}, {sts}) => ("] + _ind(ok_b) + [")", f"| (.error Py.Err.Index, {sts}) => ("] + \
+            _ind(ix_b) + [")", f"| (.error err_, {sts}) => " + self.wrap_ret(None, error="Fuel").replace(".error Py.Err.Fuel", ".error err_", 1)]
 
     def s_ForRec(self, s, env, k):
         """a `for` with return / raise / break inside → an auxiliary definition, structurally recursive on the list:
@@ -1330,6 +1449,15 @@ class Translator:
             if n in fn.varargs:
                 env[n] = fn.varargs[n]
                 binders.append(f"({self.v(n)} : {lean_ty(fn.varargs[n])})")
+        if fn.callback:                              # ω, the callback and the world it acts on: explicit parameters
+            if len(fn.callback) != 1 or fn.effects or fn.snapshot or not fn.state:
+                self.bad(node, "a callback needs state attributes and excludes effects")
+            (ckey, cpar), = fn.callback.items()
+            self.callback_recv = next((t for p, t in fn.params.items() if p == ckey.split(".")[0]), None) or fn.callback_recv_ty
+            sty = "(" + " × ".join([lean_ty(t) for t in fn.state.values()] + ["ω"]) + ")"
+            for n, t in (("ω", "Type"), (cpar, f"({sty} → {lean_ty(self.callback_recv)} → ((Except Py.Err Unit) × {sty}))"), ("world_", "ω")):
+                env[n] = t
+                binders.append(f"({n} : {t})")
         self.can_raise = any(isinstance(n, (ast.Raise, ast.While)) for n in ast.walk(node)) or any(
             isinstance(n, ast.Call) and _dotted(n.func) in ("heappop", "heapq.heappop") for n in ast.walk(node))
         if fn.list_remove_raises and any(isinstance(n, ast.Call) and isinstance(n.func, ast.Attribute) and n.func.attr == "remove"
@@ -1348,9 +1476,11 @@ class Translator:
                 self.bad(n, "nested def / lambda / class")
             if isinstance(n, ast.NamedExpr) and id(n) in self.g_walrus_ok(node):
                 continue
-            if isinstance(n, (ast.Yield, ast.YieldFrom, ast.Await, ast.Global, ast.Nonlocal, ast.Try, ast.With, ast.NamedExpr,
+            if isinstance(n, (ast.Yield, ast.YieldFrom, ast.Await, ast.Global, ast.Nonlocal, ast.With, ast.NamedExpr,
                               ast.Delete, ast.Import, ast.ImportFrom, ast.Assert)):
                 self.bad(n, f"{type(n).__name__} outside the subset")
+            if isinstance(n, ast.Try) and not fn.obj_calls:
+                self.bad(n, "Try outside the subset")
         lines = []
         if fn.effects or fn.snapshot:
             if fn.effects:
@@ -1368,6 +1498,8 @@ class Translator:
             self.outs.append(attr)
             env[attr] = ty
             lines += [f"let {self.v(attr)} : {lean_ty(ty)} := {attr}"]
+        if fn.callback:
+            self.outs.append("world_")
         lines += self.block(node.body, env, lambda e: [self.wrap_ret(None)])
         for tok, val in self.tokens.items():
             lines = [l.replace(tok, val or "") for l in lines]
